@@ -290,6 +290,8 @@ pub struct VtCtx {
     pub unwind_next_pop: bool,
     /// the next Event is built well before it is added (timing checks only)
     pub event_early: bool,
+    /// spans created and kept by the poll in progress: the polled object takes them over
+    pub kept_in_poll: Vec<usize>,
 }
 
 fn payload_str(p: &Box<dyn Any + Send>) -> String {
@@ -304,6 +306,15 @@ fn payload_str(p: &Box<dyn Any + Send>) -> String {
 
 fn sel(i: u16, len: usize) -> usize {
     ((i as usize) * len) >> 16
+}
+
+struct QuietReset(bool);
+impl Drop for QuietReset {
+    fn drop(&mut self) {
+        if self.0 {
+            NO_YIELD.with(|x| x.set(false));
+        }
+    }
 }
 
 /// the guard's destructor runs while a panic unwinds through its frame (`thread::panicking()` is
@@ -2013,11 +2024,18 @@ impl VtCtx {
         self.w().tick();
     }
 
-    pub fn op_volley(&mut self, n: u8) {
+    pub fn op_volley(&mut self, n: u16) {
         if self.reentrant_depth > 0 {
             return;
         }
         self.w().h.label("volley");
+        // a very long volley runs without yield points (and without per-command log entries)
+        let quiet = n > 1000;
+        if quiet {
+            self.w().h.label("volley_over_ring_capacity");
+            NO_YIELD.with(|x| x.set(true));
+        }
+        let _reset = QuietReset(quiet);
         for _ in 0..n {
             let u = self.w().uniq();
             if let Some(idx) = self.op_root(tid(1, 0x7011_0000 + u as u64, u), 0, true, 0, StrSeed { c: 0, l: 2 }, None, None) {
@@ -2089,6 +2107,10 @@ impl VtCtx {
                     if let Some(i) = self.op_child_of_local(0, *s, "mini_child") {
                         if !*keep {
                             self.finish_idx(i);
+                        } else if poll.is_some() {
+                            // held by the polled future/stream/sink across its suspension point;
+                            // finished when that object is dropped (unless finished before)
+                            self.kept_in_poll.push(i);
                         }
                     }
                 }
@@ -2558,6 +2580,7 @@ fn vt_main(case: Arc<Case>, id: usize, n: usize) {
             bulk_used: 0,
             unwind_next_pop: false,
             event_early: false,
+            kept_in_poll: vec![],
         };
         if id == reaper {
             reaper_main(&mut cx);
